@@ -123,6 +123,10 @@ def _search_sites(repo):
     sites = {}
     for i, (pos, name) in enumerate(heads):
         end = heads[i + 1][0] if i + 1 < len(heads) else len(src)
+        if name.startswith("verif_") and "#[cfg(" in src[max(0, pos - 200):pos] and "verif_hooks" in src[max(0, pos - 200):pos]:
+            # instrumentation behind the cargo feature verif_hooks (not compiled for users): not a
+            # mechanism of the lexer
+            continue
         body = re.sub(r"//[^\n]*", "", src[pos:end])
         for call in SEARCH_CALLS:
             pat = (r"(?<![\w.])%s\(" % call) if call in ("memstr", "memchr") else (r"\.%s\(" % call)
